@@ -12,6 +12,7 @@ def run(ctx):
                 'tie or a virtual end')
     lat_common.prepare(ctx)
     fams = lat_common.run_families(ctx, 'check_c15', translator_families=['planar', 'toric', 'rottoric'])
+    lat_common.extreme_sizes(ctx)
     ctx.extra['families'] = fams
 
 
